@@ -199,6 +199,45 @@ def r02_1(ctx: Ctx, rep: Report) -> None:  # noqa: C901
     rep.floor(9, "item adoption branches")
 
 
+def render_after_switch(ctx: Ctx, rep: Report, rid: str = "R02.8") -> None:
+    """A platform setter that converts by re-parsing its own text renders that text *after* the new platform is stored
+    (the getter then writes the spelling of the new platform, which the setter parses under the same platform).  Text
+    rendered before the switch is the old platform's spelling: names that exist on one platform only make the
+    conversion fail half way."""
+    rep.rule(rid)
+    n = 0
+    for cls in ctx.prog.classes.values():
+        st = cls.setters.get("platform")
+        if st is None:
+            continue
+        cfg = ctx.cfg(st)
+        relines = [x for x in cfg.live if x.kind == "stmt" and isinstance(x.ast, ast.Assign) and any(isinstance(t, ast.Attribute) and src(t) == "self.line" for t in x.ast.targets)]
+        pstores = [x for x in cfg.live if x.kind == "stmt" and isinstance(x.ast, ast.Assign) and any(isinstance(t, ast.Attribute) and src(t) in ("self._platform",) for t in x.ast.targets)]
+        if not relines or not pstores:
+            continue
+        for rl in relines:
+            v = rl.ast.value
+            if not (mentions(v, "self") or isinstance(v, ast.Name)):
+                continue
+            n += 1
+            rep.instance()
+            # where was the text read?
+            read_node = rl
+            if isinstance(v, ast.Name):
+                defs = [x for x in cfg.live if x.kind == "stmt" and isinstance(x.ast, ast.Assign) and any(isinstance(y, ast.Name) and y.id == v.id and isinstance(y.ctx, ast.Store) for t in x.ast.targets for y in ast.walk(t))]
+                texty = [x for x in defs if any(isinstance(y, ast.Attribute) and src(y) in ("self.line", "self._line") for y in ast.walk(x.ast.value))]
+                if not texty:
+                    continue
+                read_node = texty[-1]
+            elif not any(isinstance(y, ast.Attribute) and src(y) in ("self.line", "self._line") for y in ast.walk(v)):
+                continue
+            if all(cfg.dominates(ps, read_node) for ps in pstores[:1]) and any(cfg.dominates(ps, read_node) for ps in pstores):
+                rep.ok(f"{st.qualname}: {snippet(rl.ast)}", "the text is rendered after self._platform holds the new platform", where=where(st, rl.ast))
+            else:
+                rep.violation(st.qualname, f"{snippet(read_node.ast)} before {snippet(pstores[0].ast)}", "the text that is re-parsed was rendered under the old platform and is parsed under the new one: a port or protocol name known only to the old platform makes the conversion raise (or changes meaning)", where(st, read_node.ast), inp="Ace('permit tcp any any eq msrpc').platform = 'nxos'")
+    rep.floor(1, "platform setters that re-parse their own text")
+
+
 def fact_platform_range(ctx: Ctx, rep: Report) -> Set[str]:
     """_platform only ever holds a value returned by init_platform, whose return literals ⊆ PLATFORMS."""
     platforms = set(ctx.folder.const("helpers", "PLATFORMS"))
@@ -275,6 +314,7 @@ def r02_3(ctx: Ctx, rep: Report) -> None:
 
 def run(ctx: Ctx, rep: Report, tier: str) -> None:
     r02_1(ctx, rep)
+    render_after_switch(ctx, rep)
     # R02.2: conversion to NX-OS splits multi-port entries first; the split itself must keep every item (C19's rules)
     from . import c19
     from .c01 import field_isolation
